@@ -14,8 +14,14 @@
 (*   rep     the reference server created representation rid: len, cid       *)
 (*   asm     the body the reference server reassembled: len, cid, cok        *)
 (*   done    the request completed: x = "resp" (a response was returned:     *)
-(*           code, len, cid, cok) or the exception class                     *)
+(*           code, len, cid, cok, pok) or the exception class                *)
 (*   end     end of the observation                                          *)
+(* Every event names its transfer (tr); the summary below is kept per        *)
+(* transfer (BlockClientTrace / BlockClientPair keep one per tr).            *)
+(* Responses with a code of class 4 or 5 are the server's right: e.x says    *)
+(* whether the environment chose the error ("e1" on a Block1 request, "e2"   *)
+(* on a Block2 continuation, "shrunk": the changed representation ends at or *)
+(* before the offset asked for) or the client's own blocks provoked it.      *)
 (* Bodies are self-describing (drive.canon): cid names the canonical string, *)
 (* off the position the bytes were taken from, cok says that the bytes are   *)
 (* one contiguous slice of a canonical string.                               *)
@@ -49,9 +55,15 @@ ObsInit == [ nsub   |-> 0, ndone |-> 0,
                                                 \* returned body is not judged
              code   |-> 0, rk |-> 0,            \* method handed to the API; cache-key number of the first request
              nafter |-> 0,                      \* new requests the client sent after that
+             errs   |-> {},                     \* error responses (class 4 / 5) delivered: [code, len, cid]
+             enverr |-> FALSE,                  \* one of them was the environment's choice (not provoked by the client)
+             b1err  |-> FALSE,                  \* an error response answered a Block1 request (the upload may start over)
+             grown  |-> FALSE,                  \* the server answered a Block2 request above the requested exponent
+             judged |-> {},                     \* which judgements were made on this transfer (evidence counters)
              bad    |-> {} ]
 
 Flag(o, c) == [o EXCEPT !.bad = @ \cup {c}]
+Judged(o, j) == [o EXCEPT !.judged = @ \cup {j}]
 FlagIf(o, cond, c) == IF cond THEN Flag(o, c) ELSE o
 
 ObsSubmit(o, e) == [o EXCEPT !.nsub = @ + 1, !.N = e.len, !.cid = e.cid, !.code = e.code]
@@ -62,7 +74,8 @@ ObsReqBlock1(o, e) ==
       off  == e.b1n * size
       \* the bytes carried are the bytes of the payload at NUM x size
       o1 == FlagIf(o, ~(e.cok /\ (e.plen > 0 => (e.off = off /\ e.cid \in {o.cid, -2}))), "C05_NumTimesSizeIsOffset")
-      o2 == FlagIf(o1, off # o.b1next, "C05_Contiguous")
+      \* (after an error response to a Block1 request -- 4.13, 4.08 .. -- the upload may also start over at 0)
+      o2 == FlagIf(o1, off # o.b1next /\ ~(o.b1err /\ off = 0), "C05_Contiguous")
       o3 == FlagIf(o2, ~((e.b1m = 1) <=> (off + e.plen < o.N)), "C05_MoreIffNotFinal")
       o4 == FlagIf(o3, e.b1s > o.b1szx \/ e.b1s > o.b1srv, "C05_SzxNeverGrows")
   IN [o4 EXCEPT !.b1next = off + e.plen, !.b1szx = e.b1s]
@@ -70,7 +83,9 @@ ObsReqBlock1(o, e) ==
 ObsReqBlock2(o, e) ==
   LET off == e.b2n * Size(e.b2s)
       o1 == FlagIf(o, off # o.b2next, "C05_Contiguous")
-      o2 == FlagIf(o1, e.b2s > o.b2szx \/ e.b2s > o.b2srv, "C05_SzxNeverGrows")
+      \* (a server that answered above the requested exponent has violated the protocol; the client may fail or go on
+      \* at any exponent up to the server's -- the bodies are still judged)
+      o2 == FlagIf(o1, (e.b2s > o.b2szx /\ ~o.grown) \/ e.b2s > o.b2srv, "C05_SzxNeverGrows")
   IN [o2 EXCEPT !.b2szx = e.b2s]
 
 ObsReq(o, e) ==
@@ -96,27 +111,37 @@ ObsResp(o, e) ==
   ELSE
   LET lr == o.lr
       ok2xx == e.code \in 64..95
+      err == e.code >= 128
+      envErr == err /\ e.x \in {"e1", "e2", "shrunk"}
       \* the sequencing violations named in the statement
       b1viol == /\ e.b1n >= 0 /\ lr.b1n >= 0
                 /\ \/ e.b1n # lr.b1n                                   \* wrong block number acknowledged
                    \/ (lr.b1m = 0 /\ (e.b1m = 1 \/ e.code = 95))       \* more-flag / 2.31 on the final block
       reqoff == IF lr.b2n >= 0 THEN lr.b2n * Size(lr.b2s) ELSE 0
       \* a block that announces more blocks carries exactly its size.  One case is left to the body clauses
-      \* instead (statement silent): the very first block of the representation (answer to the request itself)
+      \* instead (statement silent): the very first block of the representation (answer to the request itself, which
+      \* carries no Block2 option or -- the application's own -- Block2 0/0/szx)
       \* with no payload at all or with a whole number of blocks -- nothing delivered so far is out of place, the
       \* client may go on from the byte count it has (the next request must ask for exactly that offset, and a
       \* returned body must be the representation) or fail
       lenbad == e.b2m = 1 /\ e.plen # Size(e.b2s)
-      resync == lr.b2n < 0 /\ e.plen % Size(e.b2s) = 0
+      resync == (lr.b2n < 0 \/ (lr.b2n = 0 /\ o.rep = 0)) /\ e.plen % Size(e.b2s) = 0
       b2viol == /\ e.b2n >= 0 /\ ok2xx
                 /\ \/ e.b2n * Size(e.b2s) # reqoff                     \* wrong block number
                    \/ (lenbad /\ ~resync)                              \* missing (or surplus) payload bytes
-      changed == o.b2act /\ ok2xx /\ e.b2n >= 0 /\ e.etag # o.etag     \* the representation changed between blocks
+      \* the representation changed between blocks (ETag differs).  An ETag that differs -- present on some blocks
+      \* only -- while the server is still serving the same representation obliges to nothing: the client may fail
+      \* or go on (the body is judged as usual)
+      changed == o.b2act /\ ok2xx /\ e.b2n >= 0 /\ e.etag # o.etag /\ e.rid # o.rep
+      grows == ok2xx /\ e.b2n >= 0 /\ lr.b2n >= 0 /\ e.b2s > lr.b2s
       first == /\ (lr.b2n < 0 \/ (lr.b2n = 0 /\ o.rep = 0))             \* answers the complete request
                /\ (lr.b1n < 0 \/ lr.b1m = 0)
       unseen == o.b2act /\ ok2xx /\ e.b2n >= 0 /\ e.etag = o.etag /\ e.rid # o.rep
-  IN IF b1viol \/ b2viol \/ changed THEN [o EXCEPT !.viol = TRUE]
-     ELSE LET o1 == IF unseen THEN [o EXCEPT !.hidden = TRUE] ELSE IF e.b1n >= 0 THEN [o EXCEPT !.b1srv = e.b1s] ELSE o
+  IN IF err THEN [o EXCEPT !.errs = @ \cup {[code |-> e.code, len |-> e.plen, cid |-> e.cid]},
+                           !.enverr = @ \/ envErr, !.b1err = @ \/ (lr.b1n >= 0)]
+     ELSE IF b1viol \/ b2viol \/ changed THEN [o EXCEPT !.viol = TRUE]
+     ELSE LET og == IF grows THEN [o EXCEPT !.grown = TRUE] ELSE o
+              o1 == IF unseen THEN [og EXCEPT !.hidden = TRUE] ELSE IF e.b1n >= 0 THEN [og EXCEPT !.b1srv = e.b1s] ELSE og
               o2 == IF first /\ ok2xx /\ e.code # 95
                       THEN [o1 EXCEPT !.rep = e.rid, !.etag = e.etag, !.b2next = e.plen, !.b2act = FALSE] ELSE o1
           IN IF e.b2n >= 0 /\ ok2xx
@@ -132,6 +157,13 @@ ObsDone(o, e) ==
       o2 == FlagIf(o1, o1.ndone > 1 \/ o.nsub = 0, "C05_CompletesOnce")
   IN IF e.x # "resp" \/ o.ndone > 0 THEN o2
      ELSE IF o.viol THEN Flag(o2, "C05_ChangedOrViolatedEndsInError")
+     ELSE IF e.code >= 96 THEN Judged(
+       \* a response that is no success: it has to be one the server sent (code and diagnostic payload) -- never a
+       \* partly assembled body under it.  Without an error of the environment's choosing the reference server
+       \* answers 4.xx only to inconsistent blocks: the upload was not intact
+       IF ~o.enverr THEN Flag(o2, "C05_ServerBodyIntact")
+       ELSE FlagIf(o2, ~(e.cok /\ [code |-> e.code, len |-> e.len, cid |-> IF e.len > 0 THEN e.cid ELSE -1] \in o.errs),
+                   "C05_ErrorResponsePassedOn"), "error-response-returned")
      ELSE LET \* the body the reference server reassembled is the payload handed to the API
               sok == /\ e.code \in 64..95 /\ o.asm.ok /\ o.asm.len = o.N
                      /\ (o.N = 0 \/ o.asm.cid = o.cid)
@@ -139,7 +171,13 @@ ObsDone(o, e) ==
               cok == /\ o.rep # 0 /\ Has(o.reps, o.rep)
                      /\ e.len = o.reps[o.rep].len /\ e.cok
                      /\ (e.len = 0 \/ e.cid = o.reps[o.rep].cid)
-          IN FlagIf(FlagIf(o2, ~sok, "C05_ServerBodyIntact"), ~cok /\ ~o.hidden, "C05_ClientBodyIntact")
+              \* a change no ETag shows (none on either representation) cannot be seen by the client: the statement
+              \* promises nothing about which representation comes back -- but what comes back is made of the
+              \* server's bytes at their own positions and ends where one of the representations ends
+              hok == /\ e.pok /\ \E r \in DOMAIN o.reps : e.len = o.reps[r].len
+          IN Judged(FlagIf(FlagIf(o2, ~sok, "C05_ServerBodyIntact"), IF o.hidden THEN ~hok ELSE ~cok, "C05_ClientBodyIntact"),
+                    IF o.hidden THEN "bodies-after-hidden-change" ELSE IF o.grown THEN "bodies-after-server-growth"
+                    ELSE IF o.enverr THEN "bodies-after-error-response" ELSE "bodies")
 
 ObsEnd(o, e) == FlagIf(o, o.nsub > 0 /\ o.ndone # o.nsub, "C05_CompletesOnce")
 
